@@ -321,3 +321,30 @@ Proof.
   specialize (H _ Hin). apply existsb_exists in H as ([f' c'] & Ha & E). cbn [fst snd] in E.
   apply andb_true_iff in E as [E1 E2]. apply String.eqb_eq in E1, E2. now subst.
 Qed.
+
+(* ---------- main's start-up section ---------- *)
+(* main.main is not a goroutine role: what it touches before it has started a goroutine is ordered before everything that
+   goroutine does by the `go` statement itself.  The translator lists main's accesses (its own and those of the functions it
+   calls) together with the goroutine bodies main had ALREADY started when it got there; such an access must be protected
+   like any other against what those goroutines touch. *)
+Definition main_row := (string * bool * list (string * bool) * list string)%type.
+
+Definition main_pair_ok (m : main_row) (b : site) : bool :=
+  let '(loc, w, locks, after) := m in
+  negb (existsb (String.eqb (s_entry b)) after) || negb (String.eqb (s_loc b) loc) || negb (w || s_write b)
+  || common_lock ("main.main", loc, w, locks) b.
+
+Definition main_ok (mt : list main_row) (t : list site) : bool :=
+  forallb (fun m => forallb (main_pair_ok m) t) mt.
+
+Lemma main_ok_sound mt t : main_ok mt t = true ->
+  forall loc w locks after b, In (loc, w, locks, after) mt -> In b t ->
+  In (s_entry b) after -> s_loc b = loc -> (w || s_write b) = true ->
+  common_lock ("main.main", loc, w, locks) b = true.
+Proof.
+  intros H loc w locks after b Hm Hb Ha Hl Hw. unfold main_ok in H. rewrite forallb_forall in H.
+  specialize (H _ Hm). rewrite forallb_forall in H. specialize (H _ Hb). unfold main_pair_ok in H.
+  assert (E1 : existsb (String.eqb (s_entry b)) after = true).
+  { apply existsb_exists. exists (s_entry b). split; [exact Ha | apply String.eqb_refl]. }
+  rewrite E1, Hl, String.eqb_refl, Hw in H. exact H.
+Qed.
